@@ -85,8 +85,53 @@ def operator_tables(rep, rng):
                           {'src': src, 'impl': a, 'expected': want})
 
 
+def slice_tables(rep, rng):
+    """e[a:b:c] on strings (code points) and arrays, every sign of the bounds: Python's slicing on the list of
+    code points / items is the reference (spec: std.slice; negative bounds count from the end, out-of-range
+    bounds are clamped, step >= 1)."""
+    import json
+    STRS = ['', 'a', 'abc', 'héllo', 'aé😀b', '😀😀', 'éé', 'añb😀cé', 'xyzé', '日本語テキスト']
+    cases = []
+    n = 260 if rep.tier == 'quick' else 6000
+    for _ in range(n):
+        if rng.random() < 0.7:
+            s = rng.choice(STRS)
+            items, src0 = list(s), json.dumps(s, ensure_ascii=False)
+        else:
+            items = [rng.randrange(10) for _ in range(rng.randrange(0, 7))]
+            src0 = json.dumps(items)
+        L = len(items)
+        def bound():
+            r = rng.random()
+            return None if r < 0.25 else rng.randrange(-L - 3, L + 4)
+        a, b, c = bound(), bound(), rng.choice([None, None, 1, 2, 3, L + 1])
+        form = rng.random()
+        def t(x):
+            return '' if x is None else str(x)
+        if form < 0.5:
+            src = '%s[%s:%s%s]' % (src0, t(a), t(b), '' if c is None and rng.random() < 0.5 else ':' + t(c))
+        else:
+            src = 'std.slice(%s, %s, %s, %s)' % (src0, 'null' if a is None else a, 'null' if b is None else b, 'null' if c is None else c)
+        ref = items[slice(a, b, c)]
+        want = ''.join(ref) if isinstance(src0, str) and src0.startswith('"') else ref
+        cases.append((src, want))
+    outs = [C.canon_impl(x) for x in vlib.impl([vlib.eval_line(sx) for sx, _ in cases])]
+    for (src, want), a in zip(cases, outs):
+        rep.bump('slice-table')
+        rep.count('c02slice:' + src, ('-' in src))
+        w = 'ok ' + C.canon_json([float(x) for x in want] if isinstance(want, list) else want)
+        if a != w:
+            rep.violation('c02slice:' + src, 'slice: %s should be %s, implementation answered %s' % (src, w[:80], a[:80]),
+                          {'src': src, 'impl': a, 'expected': w})
+
+
 NAMED_ARGS = ['null', 'true', '0', '1', '-1', '2.5', '3', '"a"', '"ab"', '"b"', '[]', '[1, 2]', '[2, 1]', '["a", "b"]', '{}', '{a: 1}', '{b: 2, a: 1}',
               'function(x) x', 'function(x, y) [x, y]', 'function(a, b) a', '"%s"', '" "', '[[1], [2]]', '[3, 1, 2]']
+
+
+NAMED_CLASSES = [['0', '1', '-1', '2.5', '3', '7'], ['"a"', '"ab"', '"b"', '" "', '"ba"', '""'],
+                 ['[]', '[1, 2]', '[2, 1]', '[3, 1, 2]', '[1]', '[[1], [2]]'], ['["a", "b"]', '["b"]', '["a"]', '[]'],
+                 ['{}', '{a: 1}', '{b: 2, a: 1}', '{a: 2}']]
 
 
 def named_calls(rep, rng):
@@ -103,8 +148,14 @@ def named_calls(rep, rng):
     for f, ps in sorted(names.items()):
         if not ps or f in ('extVar', 'native', 'trace'):
             continue
-        for _ in range(2 if rep.tier == 'quick' else 12):
-            args = [rng.choice(NAMED_ARGS) for _ in ps]
+        for rnd in range(4 if rep.tier == 'quick' else 16):
+            # half of the calls draw all arguments from one type class (distinct values), so that functions of
+            # several like-typed parameters (comparisons, string functions, set functions) get past their guards
+            if rnd % 2 == 0 and len(ps) >= 2:
+                cls = rng.choice(NAMED_CLASSES)
+                args = rng.sample(cls, len(ps)) if len(cls) >= len(ps) else [rng.choice(cls) for _ in ps]
+            else:
+                args = [rng.choice(NAMED_ARGS) for _ in ps]
             pos = 'std.%s(%s)' % (f, ', '.join(args))
             order = list(range(len(ps)))
             rng.shuffle(order)
@@ -186,6 +237,7 @@ def run(rep):
                              {'src': s, 'sexp': G.to_sexp(p), 'impl': a, 'model': b})
     # operator tables against Python's arbitrary-precision integers / IEEE doubles
     operator_tables(rep, rng)
+    slice_tables(rep, rng)
     named_calls(rep, rng)
     # specification equations checked directly on the implementation
     pairs = []
